@@ -2,7 +2,12 @@ package main
 
 // Property definitions: which jobs, which obligations, bounds and notes.
 
-import "fmt"
+import (
+	"crypto/sha256"
+	"fmt"
+	"os"
+	"path/filepath"
+)
 
 var stepStubs = []string{"harness bus Get/Set/In/Out (SMT array + trace, In returns an unconstrained byte)", "log.Printf (no effect, recorded as warning)", "math/bits.OnesCount8 (sum of bits)"}
 
@@ -417,5 +422,124 @@ func init() {
 		Assume: []string{"context contract: Done() is closed after cancel() or parent cancellation, Err() is then non-nil", "wall-clock latency of the Go scheduler, runtime goroutine accounting and the context implementation itself are outside the claim: 'bounded delay' is decided as 'at most the instruction in flight completes once the flag is published'", "race-freedom: decided as event order (error written before the atomic flag store, flag read by an atomic load, cancel on every return path), not by executing interleavings"},
 		Stubs:  runStubs,
 		Rule:   "one job per cancellation instant; every path is one program shape; obligations: returned error is the context's, promptness, final state equals a whole number of Steps of a twin, watcher finished, event order",
+	})
+}
+
+func init() {
+	register(&PropCheck{
+		ID:   "C15",
+		Dirs: []string{"z80"},
+		Jobs: func(tier string, seed int64) []Job {
+			var jobs []Job
+			mk := func(h string, ps ...int) {
+				l := h
+				for _, p := range ps {
+					l += fmt.Sprintf("/%d", p)
+				}
+				jobs = append(jobs, Job{Dir: "z80", Harness: h, Params: ps, Label: l, MaxForks: 4096, MaxPaths: 20000})
+			}
+			maxK, maxN := 4, 3
+			if tier == "thorough" {
+				maxK, maxN = 8, 4
+			}
+			mk("VC15DumbMemGetSet")
+			mk("VC15DumbIO")
+			for k := 0; k <= maxK; k++ {
+				mk("VC15DumbMemPut", k)
+			}
+			for n := 0; n <= maxN; n++ {
+				mk("VC15MapGetSet", n)
+				mk("VC15MapClone", n)
+				mk("VC15MapClear", n)
+				mk("VC15MapEqual", n)
+				for k := 0; k <= maxK; k++ {
+					mk("VC15MapPut", n, k)
+				}
+			}
+			return jobs
+		},
+		Bounds: map[string]interface{}{"slices": "length symbolic 0..65536 (DumbIO 0..256), any address/port/value", "put": "data length 0..4 (thorough 0..8), case split", "maps": "arbitrary initial maps with <= 3 (thorough 4) entries (symbolic keys, presence bits and values; iteration order = any permutation by symmetry of the symbolic keys); range loops unwound with an unwinding assertion"},
+		Assume: []string{"reflect.DeepEqual by its documented contract (maps equal iff same keys with equal values, nil != empty)", "MapMemory initialised (non-nil); DumbMemory.Put is claimed only for a block inside the slice (the property's precondition)", "histories of operations: by induction from the one-step refinement (paper step)"},
+		Stubs:  []string{"reflect.DeepEqual (contract)"},
+		Rule:   "one job per method / size; obligations compare the method's result and the post-state at an arbitrary probe address with the byte-map model",
+	})
+}
+
+var pinnedImages = map[string]string{
+	"cmd/zexdoc/zexdoc.cim": "b3015112a99bb72273e0cacde7c7549eb9840ba996af76f7bf7992ef7d6e2f90",
+	"cmd/zexdoc/zexall.cim": "fbb1bb5d46f61c33ea6841a71f2b23c49b9b62410ce6ed4e57b7d9b2e7b437e0",
+}
+
+func init() {
+	register(&PropCheck{
+		ID:   "C17",
+		Dirs: []string{"zex"},
+		Jobs: func(tier string, seed int64) []Job {
+			var jobs []Job
+			for v := 0; v < 2; v++ {
+				nm := []string{"doc", "all"}[v]
+				jobs = append(jobs, Job{Dir: "zex", Harness: "VC17Count", Params: []int{v}, Label: "VC17Count/" + nm, Unwind: 100000})
+				for i := 0; i < 67; i++ {
+					jobs = append(jobs, Job{Dir: "zex", Harness: "VC17Case", Params: []int{v, i}, Label: fmt.Sprintf("VC17Case/%s/%02d", nm, i), Unwind: 100000})
+				}
+			}
+			return jobs
+		},
+		Post: func(c *CheckCtx) {
+			digests := map[string]string{}
+			for rel, want := range pinnedImages {
+				b, err := os.ReadFile(filepath.Join(repoDir, rel))
+				if err != nil {
+					c.structural("image/"+rel, "cannot read image: "+err.Error())
+					continue
+				}
+				got := fmt.Sprintf("%x", sha256.Sum256(b))
+				digests[rel] = got
+				if got != want {
+					c.structural("image-digest/"+rel, "image is not the canonical one: sha256 "+got+" != pinned "+want)
+				}
+			}
+			c.Extra["image_sha256"] = digests
+		},
+		Bounds:  map[string]interface{}{"cases": "2 x 67, all", "bytes": "all 96 bytes of each record (mask, 3 x 20 state bytes, CRC, description padded to 30 + '$'); the byte offset inside the record is a solver variable", "tables": "obtained by executing internal/zex's real package initialiser and Status.Bytes in the interpreter"},
+		Assume:  []string{"the pinned SHA-256 digests identify the canonical zexdoc.cim / zexall.cim", "record layout of zexdoc.asm: pointer table named by `ld hl,tests` at file offset 0x1f, records located through it"},
+		Stubs:   []string{"vFile: bytes of the image read from /repo's working tree (ground data)"},
+		Rule:    "one job per case: the Go record (from the real initialiser and accessor code) must equal the image record at a symbolic byte offset; plus the case count through the 0-terminated pointer table; ground data — the solver's role is a finite comparison (said so in DESIGN.md C17)",
+		Exhaust: true,
+	})
+}
+
+func init() {
+	register(&PropCheck{
+		ID:   "C18",
+		Dirs: []string{"tinycpm"},
+		Jobs: func(tier string, seed int64) []Job {
+			var jobs []Job
+			mk := func(h string, ps ...int) {
+				l := h
+				for _, p := range ps {
+					l += fmt.Sprintf("/%d", p)
+				}
+				// small fork/path bounds: on the unchanged tree the longest job has 4 paths;
+				// a CPU that runs off into symbolic memory is cut off (undecided) quickly
+				jobs = append(jobs, Job{Dir: "tinycpm", Harness: h, Params: ps, Label: l, MaxForks: 16, MaxPaths: 48, Unwind: 100000, Alias: true, BudgetS: map[bool]int{true: 300, false: 25}[tier == "thorough"]})
+			}
+			mk("VC18Fn2")
+			maxN := 3
+			if tier == "thorough" {
+				maxN = 5
+			}
+			for n := 0; n <= maxN; n++ {
+				mk("VC18Fn9", n)
+			}
+			mk("VC18Fn9Lemma")
+			mk("VC18WarmBoot")
+			mk("VC18IO")
+			return jobs
+		},
+		Bounds: map[string]interface{}{"steps": "<= 10+6n (n <= 3, thorough 5) per call", "symbolic": "call site anywhere outside the BIOS pages, SP, all registers, the whole program area, string address and bytes (any value but '$', 0x00 and >= 0x80 included)", "strings": "length 0..3 (thorough 5) end to end; longer only via the per-character lemma at the loop head 0xFE14 + induction (paper step)"},
+		Assume: []string{"the BIOS is what NewMemory installs at 0x0000-0x0007, 0xFE06-0xFE1C and 0xFF03 (every other byte is arbitrary); the program, its stack and its string lie in 0x0100-0xFDFF and do not overlap each other", "unsupported function numbers are outside the statement", "sequences of calls: by composition (each call returns with the caller's state intact)"},
+		Stubs:  []string{"log.New / (*log.Logger).Printf: one warning event per call", "console = harness io.Writer that records the bytes"},
+		Rule:   "one job per function / string length; the real BIOS bytes run on the real Step, Memory and IO; obligations: console contents, return address, SP, preserved registers, memory outside the two stack bytes, warnings",
 	})
 }
